@@ -626,6 +626,42 @@ impl Engine {
 // keeps returning Pending, so every other task of the runtime runs — until a deadline, or until
 // the harness releases it.
 
+/// Tuning knobs of the code under test (rip_kernel::verif::knob): the simulator answers a
+/// scenario's value for a named constant instead of the built-in one.
+pub mod knobs {
+    use std::sync::atomic::{AtomicUsize, Ordering};
+
+    static EVENT_CHANNEL_CAPACITY: AtomicUsize = AtomicUsize::new(0);
+    static ASKED: AtomicUsize = AtomicUsize::new(0);
+
+    fn answer(name: &'static str, default: usize) -> usize {
+        if name == "event_channel_capacity" {
+            let v = EVENT_CHANNEL_CAPACITY.load(Ordering::SeqCst);
+            if v > 0 {
+                ASKED.fetch_add(1, Ordering::SeqCst);
+                return v;
+            }
+        }
+        default
+    }
+
+    /// 0 = built-in value
+    pub fn set_event_channel_capacity(v: usize) {
+        EVENT_CHANNEL_CAPACITY.store(v, Ordering::SeqCst);
+        ASKED.store(0, Ordering::SeqCst);
+        if v > 0 {
+            rip_kernel::verif::set_knobs(answer);
+        } else {
+            rip_kernel::verif::clear_knobs();
+        }
+    }
+
+    /// how many channels were built with the scenario's capacity since it was set
+    pub fn channels_built() -> usize {
+        ASKED.load(Ordering::SeqCst)
+    }
+}
+
 pub mod gates {
     use std::collections::{BTreeMap, HashMap};
     use std::sync::Mutex;
